@@ -9,13 +9,14 @@ def Absent (o : Lid) (r : Reg) : Prop := o ∉ r.listeners ∧ ∀ e ∈ r.pmap,
 def NoFwdTo (o : Lid) (w : World) : Prop := ∀ e ∈ w.fwd, e.2 ≠ o
 
 /-- nothing in the registry can hand a datagram to `o` -/
-def Silent (o : Lid) (w : World) : Prop := Absent o w.inner ∧ NoFwdTo o w
+def Silent (o : Lid) (w : World) : Prop := Absent o w.inner ∧ NoFwdTo o w ∧ w.tunnelRef ≠ some o
 
 /-- an operation performed by / on behalf of somebody else than `o` -/
 def Foreign (o : Lid) : ROp → Prop
   | .add _ l => l ≠ o
   | .addPrefix _ l _ => l ≠ o
   | .setFwd _ t => t ≠ o
+  | .setRef r => r ≠ some o
   | _ => True
 
 theorem lookupP_mem {m : List (Pfx × List Lid)} {p : Pfx} {ls : List Lid} (h : lookupP m p = some ls) : (p, ls) ∈ m := by
@@ -69,7 +70,29 @@ theorem silent_reach {o : Lid} {w : World} (h : Silent o w) (p : Pfx) : o ∉ w.
   rcases List.mem_append.mp hm with hm | hm
   · exact absent_recipients h.1 p hm
   · rcases List.mem_filterMap.mp hm with ⟨l, _, hl⟩
-    exact h.2 _ (lookupF_mem hl) rfl
+    exact h.2.1 _ (lookupF_mem hl) rfl
+
+theorem silent_reachTunnel {o : Lid} {w : World} (h : Silent o w) (b : Bool) : o ∉ w.reachTunnel b := by
+  unfold World.reachTunnel
+  intro hm
+  rcases List.mem_append.mp hm with hm | hm
+  · split at hm
+    · exact h.1.1 (List.mem_filter.mp hm).1
+    · cases hm
+  · rcases List.mem_filterMap.mp hm with ⟨l, _, hl⟩
+    exact h.2.1 _ (lookupF_mem hl) rfl
+
+theorem silent_touched {o : Lid} {w : World} (h : Silent o w) (p : Pfx) : o ∉ w.touched p := by
+  unfold World.touched
+  intro hm
+  simp only [List.mem_append] at hm
+  rcases hm with ((hm | hm) | hm) | hm
+  · exact silent_reach h p hm
+  · exact silent_reachTunnel h true hm
+  · exact silent_reachTunnel h false hm
+  · cases hr : w.tunnelRef with
+    | none => simp [hr] at hm
+    | some x => simp [hr] at hm; exact h.2.2 (by rw [hr, hm])
 
 theorem absent_remove_self (o : Lid) (r : Reg) : Absent o (r.removeListener o) := by
   constructor
@@ -126,39 +149,41 @@ theorem absent_addPrefix {o l : Lid} {r : Reg} (p : Pfx) (hl : l ≠ o) (h : Abs
       · exact h.1 hm
 
 theorem silent_step {o : Lid} {w : World} {op : ROp} (hf : Foreign o op) (h : Silent o w) : Silent o (w.step op) := by
-  obtain ⟨ha, hn⟩ := h
+  obtain ⟨ha, hn, hr⟩ := h
   cases op with
   | add v l =>
     cases v
-    · exact ⟨absent_add hf ha, hn⟩
+    · exact ⟨absent_add hf ha, hn, hr⟩
     · simp only [World.step]; split
-      · exact ⟨absent_add hf ha, hn⟩
-      · exact ⟨ha, hn⟩
+      · exact ⟨absent_add hf ha, hn, hr⟩
+      · exact ⟨ha, hn, hr⟩
   | addPrefix v l p =>
     cases v
-    · exact ⟨absent_addPrefix p hf ha, hn⟩
+    · exact ⟨absent_addPrefix p hf ha, hn, hr⟩
     · simp only [World.step]; split
-      · exact ⟨absent_addPrefix p hf ha, hn⟩
-      · exact ⟨ha, hn⟩
+      · exact ⟨absent_addPrefix p hf ha, hn, hr⟩
+      · exact ⟨ha, hn, hr⟩
   | remove v l =>
     cases v
-    · exact ⟨absent_remove l ha, hn⟩
+    · exact ⟨absent_remove l ha, hn, hr⟩
     · simp only [World.step]; split
-      · exact ⟨absent_remove l ha, hn⟩
-      · exact ⟨ha, hn⟩
+      · exact ⟨absent_remove l ha, hn, hr⟩
+      · exact ⟨ha, hn, hr⟩
   | setFwd a b =>
-    refine ⟨ha, ?_⟩
+    refine ⟨ha, ?_, hr⟩
     intro e he
     simp only [World.step] at he
     rcases List.mem_cons.mp he with he | he
     · subst he; exact hf
     · exact hn e (List.mem_filter.mp he).1
   | clearFwd a =>
-    refine ⟨ha, ?_⟩
+    refine ⟨ha, ?_, hr⟩
     intro e he
     simp only [World.step] at he
     exact hn e (List.mem_filter.mp he).1
-  | setOpen b => exact ⟨⟨ha.1, ha.2⟩, hn⟩
+  | setOpen b => exact ⟨⟨ha.1, ha.2⟩, hn, hr⟩
+  | setRef r => exact ⟨ha, hn, hf⟩
+  | setAnon l b => exact ⟨ha, hn, hr⟩
 
 theorem silent_run {o : Lid} (ops : List ROp) : ∀ (w : World), (∀ op ∈ ops, Foreign o op) → Silent o w → Silent o (w.run ops) := by
   induction ops with
@@ -238,18 +263,18 @@ theorem finishAll_frame (rs : List (RemKind × Bool)) : ∀ (s : UState),
     · intro h0; apply h.2.2.2.2.2.2.2.2.2.2.2; cases r.1 <;> simp [UState.finishRemoval, h0]
 
 theorem step_remove_fwd (w : World) (v : Bool) (l : Lid) : (w.step (.remove v l)).fwd = w.fwd ∧
-    (w.step (.remove v l)).fwdRemove = w.fwdRemove := by
+    (w.step (.remove v l)).fwdRemove = w.fwdRemove ∧ (w.step (.remove v l)).tunnelRef = w.tunnelRef := by
   cases v
   · simp [World.step]
   · simp only [World.step]; split <;> simp
 
 theorem uframe_step (sl : RemKind → Bool → Bool) (o px : Lid) (s : UState) (op : UOp) (h : UFrame o px s) :
-    UFrame o px (s.step sl op) := by
+    UFrame o px (s.core sl op) := by
   obtain ⟨h1, h2, h3, h4⟩ := h
   cases op with
-  | spawnRemovals k n c => simp only [UState.step]; split <;> exact ⟨h1, h2, h3, h4⟩
+  | spawnRemovals k n c => simp only [UState.core]; split <;> exact ⟨h1, h2, h3, h4⟩
   | awaitRemovals =>
-    simp only [UState.step]
+    simp only [UState.core]
     have f := finishAll_frame s.removals { s with removals := [] }
     simp only at f
     refine ⟨f.2.1.trans h1, f.2.2.1.trans h2, ?_, ?_⟩
@@ -259,47 +284,52 @@ theorem uframe_step (sl : RemKind → Bool → Bool) (o px : Lid) (s : UState) (
   | removeProxy =>
     have f := step_remove_fwd s.w s.viaOuter s.proxy
     refine ⟨h1, h2, ?_, ?_⟩
-    · intro hv; simp only [UState.step] at hv ⊢; rw [f.2]; exact h3 hv
-    · simp only [UState.step]; rw [f.1]; exact h4
+    · intro hv; simp only [UState.core] at hv ⊢; rw [f.2.1]; exact h3 hv
+    · simp only [UState.core]; rw [f.1]; exact h4
   | clearFwd =>
     refine ⟨h1, h2, h3, ?_⟩
     intro e he
-    simp only [UState.step, World.step] at he
+    simp only [UState.core, World.step] at he
     exact h4 e (List.mem_filter.mp he).1
   | unloadBootstrappers => exact ⟨h1, h2, h3, h4⟩
   | removeSelf =>
     have f := step_remove_fwd s.w s.viaOuter s.self
     refine ⟨h1, h2, ?_, ?_⟩
-    · intro hv; simp only [UState.step] at hv ⊢; rw [f.2]; exact h3 hv
-    · simp only [UState.step]; rw [f.1]; exact h4
+    · intro hv; simp only [UState.core] at hv ⊢; rw [f.2.1]; exact h3 hv
+    · simp only [UState.core]; rw [f.1]; exact h4
   | tmShutdown => exact ⟨h1, h2, h3, h4⟩
   | closeDb => exact ⟨h1, h2, h3, h4⟩
   | closeExitSockets => exact ⟨h1, h2, h3, h4⟩
   | clearTable k => cases k <;> exact ⟨h1, h2, h3, h4⟩
+  | clearEndpointRef => simp only [UState.core]; split <;> exact ⟨h1, h2, h3, h4⟩
 
 /-- the registry part of the state after any unload op: only `remove` and `clearFwd` steps happen -/
 theorem ustep_world (sl : RemKind → Bool → Bool) (s : UState) (op : UOp) :
-    (s.step sl op).w = s.w ∨ (∃ l, (s.step sl op).w = s.w.step (.remove s.viaOuter l)) ∨
-    (s.step sl op).w = s.w.step (.clearFwd s.proxy) := by
+    (s.core sl op).w = s.w ∨ (∃ l, (s.core sl op).w = s.w.step (.remove s.viaOuter l)) ∨
+    (s.core sl op).w = s.w.step (.clearFwd s.proxy) ∨ (s.core sl op).w = s.w.step (.setRef none) := by
   cases op with
-  | spawnRemovals k n c => left; simp only [UState.step]; split <;> rfl
-  | awaitRemovals => left; simp only [UState.step]; exact (finishAll_frame s.removals { s with removals := [] }).1
+  | spawnRemovals k n c => left; simp only [UState.core]; split <;> rfl
+  | awaitRemovals => left; simp only [UState.core]; exact (finishAll_frame s.removals { s with removals := [] }).1
   | removeProxy => right; left; exact ⟨s.proxy, rfl⟩
   | removeSelf => right; left; exact ⟨s.self, rfl⟩
-  | clearFwd => right; right; rfl
+  | clearFwd => right; right; left; rfl
   | clearTable k => left; cases k <;> rfl
+  | clearEndpointRef => simp only [UState.core]; split
+                        · right; right; right; rfl
+                        · left; rfl
   | _ => left; rfl
 
 theorem silent_ustep (sl : RemKind → Bool → Bool) (o : Lid) (s : UState) (op : UOp) (h : Silent o s.w) :
-    Silent o (s.step sl op).w := by
-  rcases ustep_world sl s op with hw | ⟨l, hw⟩ | hw
+    Silent o (s.core sl op).w := by
+  rcases ustep_world sl s op with hw | ⟨l, hw⟩ | hw | hw
   · rw [hw]; exact h
+  · rw [hw]; exact silent_step (by simp [Foreign]) h
   · rw [hw]; exact silent_step (by simp [Foreign]) h
   · rw [hw]; exact silent_step (by simp [Foreign]) h
 
 theorem absent_ustep (sl : RemKind → Bool → Bool) (o : Lid) (s : UState) (op : UOp) (h : Absent o s.w.inner) :
-    Absent o (s.step sl op).w.inner := by
-  rcases ustep_world sl s op with hw | ⟨l, hw⟩ | hw
+    Absent o (s.core sl op).w.inner := by
+  rcases ustep_world sl s op with hw | ⟨l, hw⟩ | hw | hw
   · rw [hw]; exact h
   · rw [hw]; cases hv : s.viaOuter
     · exact absent_remove l h
@@ -307,13 +337,75 @@ theorem absent_ustep (sl : RemKind → Bool → Bool) (o : Lid) (s : UState) (op
       · exact absent_remove l h
       · exact h
   · rw [hw]; exact h
+  · rw [hw]; exact h
 
 theorem nofwd_ustep (sl : RemKind → Bool → Bool) (o : Lid) (s : UState) (op : UOp) (h : NoFwdTo o s.w) :
-    NoFwdTo o (s.step sl op).w := by
-  rcases ustep_world sl s op with hw | ⟨l, hw⟩ | hw
+    NoFwdTo o (s.core sl op).w := by
+  rcases ustep_world sl s op with hw | ⟨l, hw⟩ | hw | hw
   · rw [hw]; exact h
   · rw [hw]; intro e he; rw [(step_remove_fwd s.w s.viaOuter l).1] at he; exact h e he
   · rw [hw]; intro e he; simp only [World.step] at he; exact h e (List.mem_filter.mp he).1
+  · rw [hw]; exact h
+
+theorem noref_ustep (sl : RemKind → Bool → Bool) (o : Lid) (s : UState) (op : UOp) (h : s.w.tunnelRef ≠ some o) :
+    (s.core sl op).w.tunnelRef ≠ some o := by
+  rcases ustep_world sl s op with hw | ⟨l, hw⟩ | hw | hw
+  · rw [hw]; exact h
+  · rw [hw, (step_remove_fwd s.w s.viaOuter l).2.2]; exact h
+  · rw [hw]; exact h
+  · rw [hw]; simp [World.step]
+
+/-- the adversary's socket acquisitions do not touch anything but `openExit`, `exits` and the clock -/
+theorem step_proj (sl : RemKind → Bool → Bool) (acq : Nat → Nat) (s : UState) (op : UOp) :
+    (s.step sl acq op).w = (s.core sl op).w ∧ (s.step sl acq op).self = (s.core sl op).self ∧
+    (s.step sl acq op).proxy = (s.core sl op).proxy ∧ (s.step sl acq op).viaOuter = (s.core sl op).viaOuter ∧
+    (s.step sl acq op).tmDown = (s.core sl op).tmDown ∧ (s.step sl acq op).cacheDown = (s.core sl op).cacheDown ∧
+    (s.step sl acq op).dbClosed = (s.core sl op).dbClosed ∧ (s.step sl acq op).removals = (s.core sl op).removals ∧
+    (s.step sl acq op).bootDown = (s.core sl op).bootDown ∧ (s.step sl acq op).circuits = (s.core sl op).circuits ∧
+    (s.step sl acq op).relays = (s.core sl op).relays ∧
+    ((s.core sl op).tmDown = true → (s.step sl acq op).openExit = (s.core sl op).openExit ∧
+                                     (s.step sl acq op).exits = (s.core sl op).exits) := by
+  unfold UState.step
+  simp only
+  split
+  · next h =>
+    refine ⟨rfl, rfl, rfl, rfl, rfl, rfl, rfl, rfl, rfl, rfl, rfl, ?_⟩
+    intro ht; simp [ht] at h
+  · exact ⟨rfl, rfl, rfl, rfl, rfl, rfl, rfl, rfl, rfl, rfl, rfl, fun _ => ⟨rfl, rfl⟩⟩
+
+theorem core_tmDown_mono (sl : RemKind → Bool → Bool) (s : UState) (op : UOp) (h : s.tmDown = true) :
+    (s.core sl op).tmDown = true := by
+  cases op with
+  | spawnRemovals k n c => simp only [UState.core]; split <;> exact h
+  | awaitRemovals => simp only [UState.core]; exact (finishAll_frame s.removals { s with removals := [] }).2.2.2.2.1.trans h
+  | clearTable k => cases k <;> exact h
+  | clearEndpointRef => simp only [UState.core]; split <;> exact h
+  | _ => simp [UState.core, h]
+
+/-- `run script` = `run (afterTm script)` from some state in which the task manager is down and the frame still holds -/
+theorem run_afterTm (sl : RemKind → Bool → Bool) (acq : Nat → Nat) (I : UState → Prop)
+    (hI : ∀ s op, I s → I (s.step sl acq op)) :
+    ∀ (script : List UOp) (s : UState), I s → UOp.tmShutdown ∈ script →
+      ∃ s₁, I s₁ ∧ s₁.tmDown = true ∧ s.run sl acq script = s₁.run sl acq (afterTm script) := by
+  intro script
+  induction script with
+  | nil => intro s _ h; cases h
+  | cons op rest ih =>
+    intro s hi hm
+    by_cases hop : op = UOp.tmShutdown
+    · subst hop
+      refine ⟨s.step sl acq .tmShutdown, hI s _ hi, ?_, ?_⟩
+      · rw [(step_proj sl acq s .tmShutdown).2.2.2.2.1]; rfl
+      · simp [UState.run, afterTm]
+    · have hm' : UOp.tmShutdown ∈ rest := by
+        rcases List.mem_cons.mp hm with h | h
+        · exact absurd h.symm hop
+        · exact h
+      obtain ⟨s₁, h1, h2, h3⟩ := ih (s.step sl acq op) (hI s op hi) hm'
+      refine ⟨s₁, h1, h2, ?_⟩
+      simp only [UState.run, List.foldl_cons, afterTm, hop, if_false] at h3 ⊢
+      exact h3
+
 
 
 /-! ### task manager: a manager that was shut down and whose tasks have all finished stays dead -/
@@ -654,28 +746,49 @@ theorem logInv_replace (tm : TM) (n : Nat) (sp : Spec) (h : LogInv tm) : LogInv 
   · exact h3 c hc a ha
   · simp at hc; subst hc; exact hex a ha
 
+theorem cancelIfTracked_id (m : List (Nat × Nat)) (t : Task) : (cancelIfTracked m t).id = t.id := by
+  unfold cancelIfTracked; repeat' split
+  all_goals rfl
+
+theorem cancelIfTrackedEv_nostart (m : List (Nat × Nat)) (t : Task) : ∀ e ∈ cancelIfTrackedEv m t, isStart e = false := by
+  intro e he
+  unfold cancelIfTrackedEv at he
+  split at he
+  · simp at he; subst he; rfl
+  · cases he
+
+theorem cancelIfTracked_newly_done (m : List (Nat × Nat)) (t : Task) (h0 : t.done = false)
+    (h1 : (cancelIfTracked m t).done = true) : Ev.fin t.id ∈ cancelIfTrackedEv m t := by
+  unfold cancelIfTracked at h1
+  unfold cancelIfTrackedEv
+  by_cases hm : inMap m t.id = true
+  · by_cases hk : t.kind = TKind.fut
+    · simp [hm, h0, hk]
+    · simp [hm, h0, hk] at h1
+  · simp [hm, h0] at h1
+
 theorem logInv_shutdown (tm : TM) (h : LogInv tm) : LogInv tm.shutdownOp := by
   obtain ⟨h1, h2, h3⟩ := h
   unfold TM.shutdownOp
   split
   · exact ⟨h1, h2, h3⟩
-  · refine ⟨h1, ?_, ?_⟩
+  · refine ⟨?_, ?_, ?_⟩
+    · apply okLog_append _ _ _ h1
+      intro e he
+      rcases List.mem_flatMap.mp (List.mem_reverse.mp he) with ⟨t, _, het⟩
+      exact cancelIfTrackedEv_nostart tm.map t e het
     · intro t' ht' hd
       rcases List.mem_map.mp ht' with ⟨t, ht, rfl⟩
-      split at hd
-      · split
-        · exact h2 t ht hd
-        · exact h2 t ht hd
-      · split
-        · exact h2 t ht hd
-        · exact h2 t ht hd
+      rw [cancelIfTracked_id]
+      cases hold : t.done with
+      | true => exact List.mem_append_right _ (h2 t ht hold)
+      | false =>
+        apply List.mem_append_left
+        apply List.mem_reverse.mpr
+        exact List.mem_flatMap.mpr ⟨t, ht, cancelIfTracked_newly_done tm.map t hold hd⟩
     · intro c hc a ha
       obtain ⟨t, ht, hid⟩ := h3 c hc a ha
-      refine ⟨_, List.mem_map.mpr ⟨t, ht, rfl⟩, ?_⟩
-      split
-      · exact hid
-      · exact hid
-
+      exact ⟨_, List.mem_map.mpr ⟨t, ht, rfl⟩, (cancelIfTracked_id tm.map t).trans hid⟩
 
 theorem logInv_pass (tm : TM) (h : LogInv tm) : LogInv tm.pass := by
   -- phase 0: continuations that wait for nothing
@@ -794,5 +907,472 @@ theorem svcClean_run {o : Nat} (ops : List SOp) : ∀ (s : Svc), (∀ op ∈ ops
     intro s hf h
     simp only [Svc.run, List.foldl_cons]
     exact ih _ (fun x hx => hf x (List.mem_cons_of_mem _ hx)) (svcClean_step (hf op List.mem_cons_self) h)
+
+
+/-! ### task manager: what `unload()` really leaves behind (`Quiet`) -/
+
+/-- The state in which `shutdown_task_manager` has set its flag: every unfinished task has its cancellation requested
+    (the gathered ones have even finished when the coroutine returns; a task that was cancelled earlier and untracked may
+    still be dying). -/
+def Quiet (tm : TM) : Prop := tm.shutdown = true ∧ ∀ t ∈ tm.tasks, t.done = true ∨ t.cancelReq = true
+
+def isRun : Ev → Bool
+  | .run _ => true
+  | _ => false
+
+/-- same number of tasks, same number of body executions -/
+def SameWork (a b : TM) : Prop :=
+  b.tasks.length = a.tasks.length ∧ (b.log.filter isRun).length = (a.log.filter isRun).length
+
+theorem SameWork.refl (a : TM) : SameWork a a := ⟨rfl, rfl⟩
+theorem SameWork.trans {a b c : TM} (h1 : SameWork a b) (h2 : SameWork b c) : SameWork a c :=
+  ⟨h2.1.trans h1.1, h2.2.trans h1.2⟩
+
+theorem deliver_keeps (now : Nat) (t : Task) (h : t.done = true ∨ t.cancelReq = true) :
+    (deliver now t).done = true ∨ (deliver now t).cancelReq = true := by
+  unfold deliver
+  rcases h with h | h
+  · simp [h]
+  · repeat' split
+    all_goals simp_all
+
+theorem deliverEv_norun (now : Nat) (t : Task) (h : t.done = true ∨ t.cancelReq = true) :
+    (deliverEv now t).filter isRun = [] := by
+  unfold deliverEv
+  by_cases hd : t.done = true
+  · simp [hd]
+  · have hc : t.cancelReq = true := by rcases h with h | h; exact absurd h hd; exact h
+    simp only [hd, hc, if_true]
+    split <;> simp [isRun]
+
+theorem flatMap_norun (now : Nat) (ts : List Task) (h : ∀ t ∈ ts, t.done = true ∨ t.cancelReq = true) :
+    ((ts.flatMap (deliverEv now)).reverse).filter isRun = [] := by
+  rw [List.filter_reverse]
+  induction ts with
+  | nil => rfl
+  | cons t rest ih =>
+    simp only [List.flatMap_cons, List.filter_append, deliverEv_norun now t (h t List.mem_cons_self), List.nil_append]
+    exact ih (fun x hx => h x (List.mem_cons_of_mem _ hx))
+
+theorem pass_quiet (tm : TM) (h : Quiet tm) : Quiet tm.pass ∧ SameWork tm tm.pass := by
+  obtain ⟨hs, hd⟩ := h
+  have e0 : (tm.conts.filter (fun c => c.after.isNone)).foldl TM.fireCont
+      { tm with conts := tm.conts.filter (fun c => c.after.isSome) } =
+      { tm with conts := tm.conts.filter (fun c => c.after.isSome) } := foldl_fireCont_shutdown _ _ hs
+  unfold TM.pass
+  simp only [e0]
+  rw [foldl_fireCont_shutdown _ _ (by exact hs)]
+  refine ⟨⟨hs, ?_⟩, ?_, ?_⟩
+  · intro t' ht'
+    rcases List.mem_map.mp ht' with ⟨t, ht, rfl⟩
+    exact deliver_keeps tm.now t (hd t ht)
+  · simp
+  · simp only [List.filter_append, flatMap_norun tm.now tm.tasks hd, List.nil_append]
+
+theorem cancelTask_keeps (id : Nat) (t : Task) (h : t.done = true ∨ t.cancelReq = true) :
+    (cancelTask id t).done = true ∨ (cancelTask id t).cancelReq = true := by
+  unfold cancelTask
+  split
+  · split
+    · left; rfl
+    · right; rfl
+  · exact h
+
+theorem cancel_quiet (tm : TM) (n : Nat) (h : Quiet tm) : Quiet (tm.cancel n).1 ∧ SameWork tm (tm.cancel n).1 ∧
+    (tm.cancel n).1.conts = tm.conts := by
+  obtain ⟨hs, hd⟩ := h
+  unfold TM.cancel
+  cases lookupN tm.map n with
+  | none => exact ⟨⟨hs, hd⟩, SameWork.refl tm, rfl⟩
+  | some id =>
+    simp only
+    split
+    · exact ⟨⟨hs, hd⟩, SameWork.refl tm, rfl⟩
+    · refine ⟨⟨hs, ?_⟩, ⟨by simp, ?_⟩, rfl⟩
+      · intro t' ht'
+        rcases List.mem_map.mp ht' with ⟨t, ht, rfl⟩
+        exact cancelTask_keeps id t (hd t ht)
+      · simp only
+        split
+        · simp [List.filter_cons, isRun]
+        · rfl
+
+theorem step_quiet (tm : TM) (op : TOp) (h : Quiet tm) : Quiet (tm.step op) ∧ SameWork tm (tm.step op) := by
+  have adv : ∀ x : TM, Quiet x → Quiet x.advance ∧ SameWork x x.advance := fun x hx => ⟨hx, ⟨rfl, rfl⟩⟩
+  have p3 : ∀ x : TM, Quiet x → Quiet x.pass.pass.pass ∧ SameWork x x.pass.pass.pass := by
+    intro x hx
+    have a := pass_quiet x hx
+    have b := pass_quiet _ a.1
+    have c := pass_quiet _ b.1
+    exact ⟨c.1, a.2.trans (b.2.trans c.2)⟩
+  cases op with
+  | reg n s => simp only [TM.step, register_shutdown tm n s h.1]; exact ⟨h, SameWork.refl tm⟩
+  | cancel n => exact ⟨(cancel_quiet tm n h).1, (cancel_quiet tm n h).2.1⟩
+  | replace n s =>
+    have c := cancel_quiet tm n h
+    simp only [TM.step, TM.replace]
+    exact ⟨⟨c.1.1, c.1.2⟩, c.2.1⟩
+  | shutdown => simp only [TM.step, TM.shutdownOp, h.1, if_true]; exact ⟨h, SameWork.refl tm⟩
+  | pass => exact pass_quiet tm h
+  | settle => exact p3 tm h
+  | tick =>
+    simp only [TM.step, TM.tick, TM.settle]
+    have a := p3 tm h
+    have b := adv _ a.1
+    have c := p3 _ b.1
+    exact ⟨c.1, a.2.trans (b.2.trans c.2)⟩
+
+theorem run_quiet (ops : List TOp) : ∀ (tm : TM), Quiet tm → Quiet (tm.run ops) ∧ SameWork tm (tm.run ops) := by
+  induction ops with
+  | nil => intro tm h; exact ⟨h, SameWork.refl tm⟩
+  | cons op rest ih =>
+    intro tm h
+    simp only [TM.run, List.foldl_cons]
+    have a := step_quiet tm op h
+    have b := ih _ a.1
+    exact ⟨b.1, a.2.trans b.2⟩
+
+
+/-! ### task manager: every unfinished task is tracked or has its cancellation requested -/
+
+def IdsOk (tm : TM) : Prop := tm.tasks.map (fun t => t.id) = List.range tm.next
+
+def TrackedT (m : List (Nat × Nat)) (t : Task) : Prop :=
+  t.done = true ∨ t.cancelReq = true ∨ lookupN m t.name = some t.id
+
+def Tracked (tm : TM) : Prop := IdsOk tm ∧ ∀ t ∈ tm.tasks, TrackedT tm.map t
+
+theorem taskDone_unique {ts : List Task} (hn : (ts.map (fun t => t.id)).Nodup) {t : Task} (ht : t ∈ ts) :
+    taskDone ts t.id = t.done := by
+  induction ts with
+  | nil => cases ht
+  | cons h rest ih =>
+    simp only [List.map_cons, List.nodup_cons] at hn
+    simp only [taskDone]
+    rcases List.mem_cons.mp ht with rfl | hr
+    · simp
+    · split
+      · next hid =>
+        exfalso
+        exact hn.1 (hid ▸ List.mem_map.mpr ⟨t, hr, rfl⟩)
+      · exact ih hn.2 hr
+
+theorem IdsOk.nodup {tm : TM} (h : IdsOk tm) : (tm.tasks.map (fun t => t.id)).Nodup := by
+  rw [h]; exact List.nodup_range
+
+theorem lookupN_filter_ne (m : List (Nat × Nat)) (name n : Nat) (h : n ≠ name) :
+    lookupN (m.filter (fun e => e.1 != name)) n = lookupN m n := by
+  induction m with
+  | nil => rfl
+  | cons e rest ih =>
+    obtain ⟨a, b⟩ := e
+    by_cases ha : a = name
+    · subst ha
+      have hf : List.filter (fun e => e.1 != a) ((a, b) :: rest) = List.filter (fun e => e.1 != a) rest := by
+        simp [List.filter_cons]
+      rw [hf, ih]
+      have hne : ¬ a = n := fun hh => h hh.symm
+      simp [lookupN, hne]
+    · have hf : List.filter (fun e => e.1 != name) ((a, b) :: rest) = (a, b) :: List.filter (fun e => e.1 != name) rest := by
+        simp [List.filter_cons, ha]
+      rw [hf]
+      simp only [lookupN]
+      split
+      · rfl
+      · exact ih
+
+theorem lookupN_filter_keep (m : List (Nat × Nat)) (keep : Nat × Nat → Bool) (n id : Nat)
+    (h : lookupN m n = some id) (hk : keep (n, id) = true) : lookupN (m.filter keep) n = some id := by
+  induction m with
+  | nil => simp [lookupN] at h
+  | cons e rest ih =>
+    obtain ⟨a, b⟩ := e
+    simp only [lookupN] at h
+    split at h
+    · next ha =>
+      cases h; subst ha
+      simp [List.filter_cons, hk, lookupN]
+    · next ha =>
+      simp only [List.filter_cons]
+      split
+      · simp only [lookupN, ha, if_false]; exact ih h
+      · exact ih h
+
+theorem lookupN_inMap {m : List (Nat × Nat)} {n id : Nat} (h : lookupN m n = some id) : inMap m id = true := by
+  induction m with
+  | nil => simp [lookupN] at h
+  | cons e rest ih =>
+    obtain ⟨a, b⟩ := e
+    simp only [lookupN] at h
+    split at h
+    · cases h; simp [inMap]
+    · have := ih h
+      simp only [inMap, List.any_cons] at this ⊢
+      simp [this]
+
+theorem tracked_register (tm : TM) (n : Nat) (sp : Spec) (h : Tracked tm) : Tracked (tm.register n sp).1 := by
+  obtain ⟨hi, ht⟩ := h
+  unfold TM.register
+  split
+  · exact ⟨hi, ht⟩
+  · split
+    · exact ⟨hi, ht⟩
+    · next hsd hact =>
+      refine ⟨?_, ?_⟩
+      · unfold IdsOk at hi ⊢
+        simp only [List.map_append, List.map_cons, List.map_nil, hi, mkTask, List.range_succ]
+      · intro t htm
+        rcases List.mem_append.mp htm with htm | htm
+        · rcases ht t htm with hd | hc | hl
+          · exact Or.inl hd
+          · exact Or.inr (Or.inl hc)
+          · by_cases hn : t.name = n
+            · cases hd : t.done with
+              | true => exact Or.inl hd
+              | false =>
+                -- the name was not active, so the task it maps to is finished: contradiction
+                exfalso
+                have hna : tm.isActive n = false := by simpa using hact
+                unfold TM.isActive at hna
+                rw [← hn, hl] at hna
+                simp only [taskDone_unique hi.nodup htm, hd] at hna
+                cases hna
+            · right; right
+              simp only [lookupN]
+              rw [if_neg (fun hh => hn hh.symm)]
+              rw [lookupN_filter_ne _ _ _ hn]; exact hl
+        · simp at htm; subst htm
+          right; right
+          simp [mkTask, lookupN]
+
+
+theorem register_shutdown_eq (tm : TM) (n : Nat) (sp : Spec) : (tm.register n sp).1.shutdown = tm.shutdown := by
+  unfold TM.register; repeat' split
+  all_goals rfl
+
+theorem fireCont_shutdown_eq (tm : TM) (c : Cont) : (tm.fireCont c).shutdown = tm.shutdown := by
+  rw [fireCont_eq]
+  split
+  · exact register_shutdown_eq tm c.name c.spec
+  · exact register_shutdown_eq tm c.name c.spec
+
+theorem foldFire_shutdown_eq (cs : List Cont) : ∀ (tm : TM), (cs.foldl TM.fireCont tm).shutdown = tm.shutdown := by
+  induction cs with
+  | nil => intro tm; rfl
+  | cons c rest ih => intro tm; simp only [List.foldl_cons]; rw [ih, fireCont_shutdown_eq]
+
+theorem pass_shutdown_eq (tm : TM) : tm.pass.shutdown = tm.shutdown := by
+  unfold TM.pass
+  simp only
+  rw [foldFire_shutdown_eq]
+  simp only
+  rw [foldFire_shutdown_eq]
+
+theorem pass_shutdown_false (tm : TM) (h : tm.shutdown = false) (hs : (tm.step .pass).shutdown = true) : False := by
+  simp only [TM.step] at hs
+  rw [pass_shutdown_eq, h] at hs; cases hs
+
+theorem tracked_fireCont (tm : TM) (c : Cont) (h : Tracked tm) : Tracked (tm.fireCont c) := by
+  have hr := tracked_register tm c.name c.spec h
+  rw [fireCont_eq]
+  split
+  · exact ⟨hr.1, hr.2⟩
+  · exact hr
+
+theorem tracked_foldFire (cs : List Cont) : ∀ (tm : TM), Tracked tm → Tracked (cs.foldl TM.fireCont tm) := by
+  induction cs with
+  | nil => intro tm h; exact h
+  | cons c rest ih => intro tm h; exact ih _ (tracked_fireCont tm c h)
+
+theorem cancelTask_fields (id : Nat) (t : Task) : (cancelTask id t).name = t.name ∧
+    (t.done = true → (cancelTask id t).done = true) ∧ (t.cancelReq = true → (cancelTask id t).cancelReq = true) ∧
+    (t.id = id → (cancelTask id t).cancelReq = true) := by
+  unfold cancelTask
+  repeat' split
+  all_goals simp_all
+
+theorem tracked_cancel (tm : TM) (n : Nat) (h : Tracked tm) : Tracked (tm.cancel n).1 := by
+  obtain ⟨hi, ht⟩ := h
+  unfold TM.cancel
+  cases hl : lookupN tm.map n with
+  | none => exact ⟨hi, ht⟩
+  | some id =>
+    simp only
+    split
+    · exact ⟨hi, ht⟩
+    · refine ⟨?_, ?_⟩
+      · unfold IdsOk at hi ⊢
+        simp only [List.map_map]
+        rw [← hi]
+        apply List.map_congr_left
+        intro t _
+        exact cancelTask_id id t
+      · intro t' ht'
+        rcases List.mem_map.mp ht' with ⟨t, htm, rfl⟩
+        have f := cancelTask_fields id t
+        rcases ht t htm with hd | hc | hlk
+        · exact Or.inl (f.2.1 hd)
+        · exact Or.inr (Or.inl (f.2.2.1 hc))
+        · by_cases hn : t.name = n
+          · -- the name maps to this very task: it is the one being cancelled
+            have : t.id = id := by rw [hn, hl] at hlk; exact (Option.some.inj hlk).symm
+            exact Or.inr (Or.inl (f.2.2.2 this))
+          · right; right
+            rw [f.1, cancelTask_id, lookupN_filter_ne _ _ _ hn]; exact hlk
+
+theorem tracked_replace (tm : TM) (n : Nat) (sp : Spec) (h : Tracked tm) : Tracked (tm.replace n sp) := by
+  have := tracked_cancel tm n h
+  exact ⟨this.1, this.2⟩
+
+theorem cancelIfTracked_fields (m : List (Nat × Nat)) (t : Task) :
+    (t.done = true → (cancelIfTracked m t).done = true) ∧ (t.cancelReq = true → (cancelIfTracked m t).cancelReq = true) ∧
+    (inMap m t.id = true → t.done = false → (cancelIfTracked m t).cancelReq = true) := by
+  unfold cancelIfTracked
+  repeat' split
+  all_goals simp_all
+
+/-- the first `shutdown_task_manager` of a manager in which every unfinished task is tracked leaves it `Quiet` -/
+theorem quiet_of_tracked_shutdown (tm : TM) (h : Tracked tm) (hs : tm.shutdown = false) : Quiet tm.shutdownOp := by
+  unfold TM.shutdownOp
+  simp only [hs, Bool.false_eq_true, if_false]
+  refine ⟨rfl, ?_⟩
+  intro t' ht'
+  rcases List.mem_map.mp ht' with ⟨t, htm, rfl⟩
+  have f := cancelIfTracked_fields tm.map t
+  rcases h.2 t htm with hd | hc | hlk
+  · exact Or.inl (f.1 hd)
+  · exact Or.inr (f.2.1 hc)
+  · cases hd : t.done with
+    | true => exact Or.inl (f.1 hd)
+    | false => exact Or.inr (f.2.2 (lookupN_inMap hlk) hd)
+
+theorem tracked_shutdown (tm : TM) (h : Tracked tm) : Tracked tm.shutdownOp := by
+  by_cases hs : tm.shutdown = true
+  · simp only [TM.shutdownOp, hs, if_true]; exact h
+  · have hs' : tm.shutdown = false := by simpa using hs
+    have hq := quiet_of_tracked_shutdown tm h hs'
+    refine ⟨?_, ?_⟩
+    · have hi := h.1
+      unfold IdsOk at hi ⊢
+      simp only [TM.shutdownOp, hs', Bool.false_eq_true, if_false, List.map_map]
+      rw [← hi]
+      apply List.map_congr_left
+      intro t _
+      exact cancelIfTracked_id tm.map t
+    · intro t ht
+      rcases hq.2 t ht with hd | hc
+      · exact Or.inl hd
+      · exact Or.inr (Or.inl hc)
+
+theorem deliver_fields (now : Nat) (t : Task) : (deliver now t).name = t.name ∧
+    (t.cancelReq = true → (deliver now t).cancelReq = true) ∧ (t.done = true → (deliver now t).done = true) := by
+  unfold deliver
+  repeat' split
+  all_goals simp_all
+
+theorem tracked_pass (tm : TM) (h : Tracked tm) : Tracked tm.pass := by
+  have h0 : Tracked ((tm.conts.filter (fun c => c.after.isNone)).foldl TM.fireCont
+      { tm with conts := tm.conts.filter (fun c => c.after.isSome) }) :=
+    tracked_foldFire _ _ ⟨h.1, h.2⟩
+  unfold TM.pass
+  simp only
+  generalize ((tm.conts.filter (fun c => c.after.isNone)).foldl TM.fireCont
+      { tm with conts := tm.conts.filter (fun c => c.after.isSome) }) = tm0 at h0 ⊢
+  apply tracked_foldFire
+  obtain ⟨hi, ht⟩ := h0
+  have hi' : (tm0.tasks.map (deliver tm0.now)).map (fun t => t.id) = List.range tm0.next := by
+    unfold IdsOk at hi
+    rw [← hi, List.map_map]
+    apply List.map_congr_left
+    intro t _
+    exact deliver_id tm0.now t
+  refine ⟨hi', ?_⟩
+  intro t' ht'
+  rcases List.mem_map.mp ht' with ⟨t, htm, rfl⟩
+  have f := deliver_fields tm0.now t
+  rcases ht t htm with hd | hc | hlk
+  · exact Or.inl (f.2.2 hd)
+  · exact Or.inr (Or.inl (f.2.1 hc))
+  · cases hd' : (deliver tm0.now t).done with
+    | true => exact Or.inl hd'
+    | false =>
+      right; right
+      rw [f.1, deliver_id]
+      apply lookupN_filter_keep _ _ _ _ hlk
+      have hn : ((tm0.tasks.map (deliver tm0.now)).map (fun t => t.id)).Nodup := by rw [hi']; exact List.nodup_range
+      have := taskDone_unique hn ht'
+      rw [deliver_id] at this
+      simp [this, hd']
+
+theorem tracked_advance (tm : TM) (h : Tracked tm) : Tracked tm.advance := ⟨h.1, h.2⟩
+
+theorem tracked_step (tm : TM) (op : TOp) (h : Tracked tm) : Tracked (tm.step op) := by
+  cases op with
+  | reg n s => exact tracked_register tm n s h
+  | cancel n => exact tracked_cancel tm n h
+  | replace n s => exact tracked_replace tm n s h
+  | shutdown => exact tracked_shutdown tm h
+  | pass => exact tracked_pass tm h
+  | settle => exact tracked_pass _ (tracked_pass _ (tracked_pass tm h))
+  | tick =>
+    simp only [TM.step, TM.tick, TM.settle]
+    have a := tracked_pass _ (tracked_pass _ (tracked_pass tm h))
+    have b := tracked_advance _ a
+    exact tracked_pass _ (tracked_pass _ (tracked_pass _ b))
+
+theorem tracked_run (ops : List TOp) : ∀ (tm : TM), Tracked tm → Tracked (tm.run ops) := by
+  induction ops with
+  | nil => intro tm h; exact h
+  | cons op rest ih => intro tm h; simp only [TM.run, List.foldl_cons]; exact ih _ (tracked_step tm op h)
+
+theorem tracked_init : Tracked ({} : TM) := ⟨rfl, (by intro t ht; cases ht)⟩
+
+/-- the flag is only ever set by `shutdownOp`, which leaves the manager `Quiet`; `Quiet` is kept by every operation -/
+theorem quiet_when_shutdown (ops : List TOp) : ∀ (tm : TM), Tracked tm → (tm.shutdown = true → Quiet tm) →
+    ((tm.run ops).shutdown = true → Quiet (tm.run ops)) := by
+  induction ops with
+  | nil => intro tm _ h; exact h
+  | cons op rest ih =>
+    intro tm ht hq
+    simp only [TM.run, List.foldl_cons]
+    apply ih _ (tracked_step tm op ht)
+    intro hs
+    by_cases hs0 : tm.shutdown = true
+    · exact (step_quiet tm op (hq hs0)).1
+    · have hs0' : tm.shutdown = false := by simpa using hs0
+      cases op with
+      | shutdown => exact quiet_of_tracked_shutdown tm ht hs0'
+      | reg n s =>
+        exfalso
+        have : (tm.step (.reg n s)).shutdown = tm.shutdown := by
+          simp only [TM.step, TM.register]; repeat' split
+          all_goals rfl
+        rw [this, hs0'] at hs; cases hs
+      | cancel n =>
+        exfalso
+        have : (tm.step (.cancel n)).shutdown = tm.shutdown := by
+          simp only [TM.step, TM.cancel]; repeat' split
+          all_goals rfl
+        rw [this, hs0'] at hs; cases hs
+      | replace n s =>
+        exfalso
+        have : (tm.step (.replace n s)).shutdown = tm.shutdown := by
+          simp only [TM.step, TM.replace, TM.cancel]; repeat' split
+          all_goals rfl
+        rw [this, hs0'] at hs; cases hs
+      | pass => exfalso; exact pass_shutdown_false tm hs0' hs
+      | settle =>
+        exfalso
+        have a := pass_shutdown_eq tm
+        have b := pass_shutdown_eq tm.pass
+        have c := pass_shutdown_eq tm.pass.pass
+        simp only [TM.step, TM.settle] at hs
+        rw [c, b, a, hs0'] at hs; cases hs
+      | tick =>
+        exfalso
+        simp only [TM.step, TM.tick, TM.settle, TM.advance] at hs
+        rw [pass_shutdown_eq, pass_shutdown_eq, pass_shutdown_eq] at hs
+        simp only at hs
+        rw [pass_shutdown_eq, pass_shutdown_eq, pass_shutdown_eq, hs0'] at hs; cases hs
 
 end Ipv8.C11
